@@ -21,7 +21,7 @@ RULE = ("2..5 real nodes per scenario; one node under test runs a seeded history
         "open on the reference addresses, EN_AA=3E, DYNPD=3F. Non-trivial: >=1 role change "
         "(RX->TX->RX) was observed in the scenario; distinct = (node class, call history with "
         "outcome class per call, fault plan).")
-RULE += (" Later rounds added: all ordered pairs of call kinds on one node (a third with multicast off), two frames waiting in the RX FIFO for one update(), multicast-off nodes under test. Multicasting switched off and on at run time (applied by assigning node_address or multicast_level again).")
+RULE += (" Later rounds added: the node's with block left and entered again before a multicast / send / loop-back, the pipe dump (print_pipes, print_details(True)) as a call kind of the pair sweep; all ordered pairs of call kinds on one node (a third with multicast off), two frames waiting in the RX FIFO for one update(), multicast-off nodes under test. Multicasting switched off and on at run time (applied by assigning node_address or multicast_level again).")
 REQUIRED = {"invariant_at_return": 3000, "role_changes": 300, "exception_returns": 20,
             "failed_tx_returns": 50}
 BUDGET = {"quick": 480, "thorough": 900}
@@ -41,7 +41,8 @@ def gen_pairs(ctx):
              ["multicast_level", own], ["multicast_level", 4], ["inject_fwd", absent, 70], ["inject_fwd", 0o11 if dut != 0o11 else 0, 1],
              ["inject_two", 0o11 if dut != 0o11 else 0, 1, 193], ["inject_two", 0o2 if dut != 0o2 else 0o21, 70, 131],
              ["send_mc_addr", 1], ["mc_switch", True, "level"], ["mc_switch", True, "addr"], ["mc_switch", False, "addr"],
-             ["update"]]
+             ["update"], ["reenter_then", "multicast"], ["reenter_then", "send"], ["reenter_then", "loopback"],
+             ["dump_pipes", 0], ["dump_pipes", 1]]
         k = 0
         for a in T:
             for b in T:
@@ -304,6 +305,23 @@ def _run_net(ctx, case, net):
                 return o.update()
             if c == "update":
                 return o.update()
+            if c == "reenter_then":
+                # the node's `with` block is left and entered again (all shadows are written back to
+                # the radio), then one operation: after it the node listens on its addresses again
+                o.__exit__(None, None, None)
+                o.__enter__()
+                if call[1] == "multicast":
+                    return o.multicast(b"after-re-entry", 9)
+                if call[1] == "loopback":
+                    o.send(Hdr(o.node_address, 3), b"to-myself")
+                    return o.multicast(b"and-a-multicast", 9)
+                return o.send(Hdr(net_ref.parent(o.node_address) if o.node_address else 0o1, 0), b"after-re-entry")
+            if c == "dump_pipes":
+                import contextlib
+                import io
+                with contextlib.redirect_stdout(io.StringIO()):
+                    o.print_details(True) if call[1] else o.print_pipes()
+                return None
             raise KeyError(c)
         net.steps.append({"who": case["dut"], "name": call[0], "fn": fn, "deadline_ms": 6000,
                           "gap": 6 * W.MS})
